@@ -16,6 +16,7 @@ static void densityCase(Rng &rng, CaseResult &r) {
   o.maxCells = (int)rng.pick(std::vector<int>{5, 15, 30, 60});
   o.maxRows = 12;
   if (rng.chance(0.15)) o.scale = (int)rng.pick(std::vector<int>{10, 100});
+  else if (rng.chance(0.1)) { o.scale = (int)rng.pick(std::vector<int>{1000, 5000, 13000}); o.maxCells = std::min(o.maxCells, 30); }  // bin demands beyond 2^31
   Circuit c = genCircuit(rng, o);
   float sizeFactor = 1.0f + (float)rng.unif() * 6;
   float margin = rng.chance(0.4) ? 0.0f : (float)rng.unif() * 1.5f;
